@@ -139,6 +139,8 @@ def present_pair(c, rng, disjoint=False):
                 B2["rules"].append(r)
         d["B"] = B2
         d["bmode"] = "extend"
+        if c.get("op") == "incl" and rng.random() < 0.5:
+            d["swap"] = True       # the edited copy is the smaller operand
         d["syms"] = syms_of(A)
         d.pop("split", None)
     elif not disjoint and c.get("op") in ("incl", "union", "isect", "bddincl") and rng.random() < 0.06:
